@@ -5,6 +5,7 @@ import PPLV.Checked.ProofsSpec
 import PPLV.Checked.ProofsExt3
 import PPLV.Checked.ProofsConv
 import PPLV.Checked.ModelAsWritten
+import PPLV.Checked.ProofsFloatMpz
 /-!
 # C11 — checked arithmetic reports true rounding relations; bounded builds never lie
 
@@ -431,5 +432,40 @@ theorem checker_decides (t : IntTy) (π : Policy) (op : IntOp) (hop : op ≠ .sq
 /-- non-vacuity: the checker rejects the library's answer to `7 / -2` and accepts `-7 / 2` -/
 example : K4.holdsB V_GT (.fin (-3)) (IntOp.exact .i8 .checkOverflowOnly .div { x := 7, y := -2 }) = false := by decide
 example : K4.holdsB V_GT (.fin (-4)) (IntOp.exact .i8 .checkOverflowOnly .div { x := -7, y := 2 }) = true := by decide
+
+/-! ## floating point: judged on the real output; one conversion modelled and proved -/
+
+/-- **The float judge decides the property clauses.**  For every float operation whose exact result is an
+extended rational (everything except `sqrt`, which is compared through squares) `pplv_c11` brings the
+stored value `sn / sd` and the exact result `n / d` to the denominator of the stored value and evaluates
+`K4.holdsFB` / `K4.directedB`; these Booleans are equivalent to `K4.holdsF` / `K4.directed` about the two
+rationals (`holdsF`: as `holds`, but a normal-class code may accompany a stored infinity of the format). -/
+theorem float_judge_sound (stored ex : QV) (hs : stored.WF) (he : ex.WF) (r : Result) (dir : Dir) :
+    (K4.holdsFB r stored.split.1 ((QX.val ex).scaled stored.split.2) = true ↔ K4.holdsF r stored.toQ ex.toQ) ∧
+    (K4.directedB dir r stored.split.1 ((QX.val ex).scaled stored.split.2) = true ↔
+      K4.directed dir r stored.toQ ex.toQ) :=
+  PPLV.Checked.float_judge_sound stored ex hs he r dir
+
+/-- non-vacuity: 1/3 stored as 0.375 = 3/8 with `V_LT` is accepted, with `V_GT` rejected -/
+example : K4.holdsFB V_LT (QV.fin 3 8).split.1 ((QX.val (.fin 1 3)).scaled (QV.fin 3 8).split.2) = true := by decide
+example : K4.holdsFB V_GT (QV.fin 3 8).split.1 ((QX.val (.fin 1 3)).scaled (QV.fin 3 8).split.2) = false := by decide
+
+/-- **`assign_float_mpz` for every binary format** (`MANTISSA_BITS = f.mbits`, `EXPONENT_MAX = f.emax`), every
+integer and direction: relation, direction and overflow claim are true; in particular the
+meaningful-bits test `exponent - zeroes > MANTISSA_BITS` is exactly "more than `mbits + 1` significant
+bits".  `e`, `z` are the values of `mpz_sizeinbase(from, 2) - 1` and `mpn_scan1(from, 0)`. -/
+theorem assign_float_mpz_holds (f : FloatFormat) (hf : f.mbits ≤ f.emax) (v : Int) (e z : Nat) (dir : Dir)
+    (he : v ≠ 0 → pow2 e ≤ (if v < 0 then -v else v) ∧ (if v < 0 then -v else v) < pow2 (e + 1))
+    (hz : v ≠ 0 → pow2 z ∣ (if v < 0 then -v else v) ∧ ¬ pow2 (z + 1) ∣ (if v < 0 then -v else v)) :
+    K4.holdsF (f.assignMpz v e z dir).2 (f.assignMpz v e z dir).1 (.fin v) ∧
+    K4.directed dir (f.assignMpz v e z dir).2 (f.assignMpz v e z dir).1 (.fin v) ∧
+    K4.overflowHolds (f.assignMpz v e z dir).2 (-(f.maxF)) f.maxF (.fin v) :=
+  assignFloatMpz_ok f hf v e z dir he hz
+
+/-- 2^24 + 1 has 25 significant bits: inexact in binary32; 2^24 + 2 = (2^23 + 1)·2 has 24: exact -/
+example : FloatFormat.binary32.assignMpz 16777217 24 0 .up = (.fin 16777218, V_LT) := by decide
+example : FloatFormat.binary32.assignMpz 16777217 24 0 .down = (.fin 16777216, V_GT) := by decide
+example : FloatFormat.binary32.assignMpz 16777218 24 1 .up = (.fin 16777218, V_EQ) := by decide
+example : FloatFormat.binary32.assignMpz (-(pow2 128)) 128 128 .up = (.fin (-(FloatFormat.binary32.maxF)), V_LT_INF) := by decide
 
 end C11
